@@ -183,10 +183,16 @@ def multisig_order(chk, w):
         chk.fail("SIGN", "multisig-order/missing", "no looped signing site found in apply_signatures")
 
 
-def guard(chk, w, f):
+def g_returns_result(g):
+    return g.body.local_ty(0).startswith("core::result::Result<")
+
+
+def guard(chk, w, f, _inner=None):
     body = f.body
     du = defuse.DefUse(body)
     short = f.p.rsplit("::", 2)[-2].split("<")[0] + "::" + f.p.rsplit("::", 1)[-1]
+    if _inner:
+        short = "%s (for %s)" % (short, _inner)
     steps = [(bb, t) for bb, t in body.calls() if t.callee.indirect is None and
              BUILD_STEP.search(t.callee.target_p())]
     if not steps:
@@ -212,7 +218,7 @@ def guard(chk, w, f):
         else:
             chk.fail("GUARD", f.p + "/version", "with an invalid version the builder continues (returns "
                      "%s, later steps %d)" % (sorted(rets), len(later)), t.span.loc())
-    elif "DeferredPcztBuilder" not in f.p:
+    elif "DeferredPcztBuilder" not in f.p and not _inner:
         chk.fail("GUARD", f.p + "/version/missing", "check_version_compatibility is not called",
                  f.span.loc())
     # balance guard
@@ -223,6 +229,53 @@ def guard(chk, w, f):
         o = [defuse.show(du.origin(a)) for a in t.args]
         if ("value_balance" in o[0] or "sum(" in o[0]) and "sub(" in o[0] and "zero()" in o[1]:
             okc = (bb, t, o)
+    if okc is None and not _inner:
+        # the guard may be delegated to a private helper of the builder: `self.check_..(fee)?`
+        for hb_, ht in body.calls():
+            if ht.callee.indirect is not None or body.blocks[hb_].cleanup:
+                continue
+            hs = [g for g in w.fns.values() if g.id == ht.callee.target_id() and g.body is not None and
+                  g.p.startswith("zcash_primitives::transaction::builder::") and not g.is_closure() and
+                  any(c.callee.indirect is None and re.search(r"ZatBalance as core::cmp::Ord>::cmp$", c.callee.target_p())
+                      for _x, c in g.body.calls())]
+            if len(hs) != 1 or not g_returns_result(hs[0]):
+                continue
+            # the helper itself is the guard ...
+            before = len(chk.violations)
+            guard(chk, w, hs[0], _inner=short)
+            if len(chk.violations) != before:
+                return
+            # ... its fee is the caller's, its failure ends the build, and it precedes every build step
+            def _mentions_fee(o):
+                if not isinstance(o, tuple):
+                    return False
+                if o[0] == "local":
+                    return "fee" in (body.local_name(o[1]) or "")
+                if o[0] == "arg":
+                    return o[1] < len(f.argnames or []) and "fee" in (f.argnames[o[1]] or "")
+                if o[0] == "call" and "fee" in o[1].rsplit("::", 1)[-1]:
+                    return True
+                return any(_mentions_fee(x) if isinstance(x, tuple) else
+                           (any(_mentions_fee(y) for y in x) if isinstance(x, list) else False) for x in o[1:])
+            fee_ok = any(_mentions_fee(du.origin(a)) or (a.kind in ("copy", "move") and
+                         "fee" in (body.local_name(a.place.local) or "")) for a in ht.args[1:])
+            res = S.after_call(body, hb_, S.E("Result", "Err"))
+            rets = {rv for _b, rv in res.returns}
+            later = [c for _b, c in res.calls if c.callee.indirect is None and BUILD_STEP.search(c.callee.target_p())]
+            if fee_ok and rets <= {"variant:Err"} and not later:
+                chk.ok("GUARD", "%s: the balance guard is delegated to %s(fee); its Err ends the build"
+                       % (short, hs[0].p.rsplit("::", 1)[-1]))
+                chk.ok("GUARD", "%s: balance below zero => Err(InsufficientFunds), nothing is built (via the helper)" % short)
+                chk.ok("GUARD", "%s: balance above zero => Err(ChangeRequired), nothing is built (via the helper)" % short)
+            else:
+                chk.fail("GUARD", f.p + "/balance/delegated", "the helper %s does not receive the fee or its error does "
+                         "not end the build (returns %s, later build steps %d)" % (hs[0].p, sorted(rets), len(later)),
+                         ht.span.loc())
+            for b2, c in steps:
+                if b2 is not None and not body.dominates(hb_, b2) and not _fee_optional(body, hb_, b2):
+                    chk.fail("GUARD", "%s/step-before-guard/%s" % (f.p, c.callee.target_p().rsplit("::", 1)[-1]),
+                             "a bundle is built on a path that does not pass the balance guard", c.span.loc())
+            return
     if okc is None:
         chk.fail("GUARD", f.p + "/balance/missing", "no comparison of (value_balance - fee) with zero "
                  "in %s" % short, f.span.loc())
